@@ -43,6 +43,9 @@ pub enum Kind {
     LockRoundTrip { sk: Hx, password: Hx, salt: Hx, others: Vec<Hx> },
     /// single-bit flips `from..to` of the 84-byte blob (672 bits in total)
     LockSweep { sk: Hx, password: Hx, salt: Hx, from: usize, to: usize },
+    /// blobs that end in zero bytes, presented without those bytes (a lost tail that a decoder which
+    /// zero-fills its buffer would silently restore): `tries` salts are searched for such a blob
+    ShortBlob { sk: Hx, password: Hx, seed: u64, tries: usize },
     /// a locked-key *string* with a text-level fault, through EncodedSk::try_from + unlock
     LockedString { sk: Hx, salt: Hx, fault: TextFault },
     /// keyring text made of documented line forms: two-way comparison with the reference parser
@@ -398,6 +401,39 @@ impl A9 {
                     }
                 }
             }
+            Kind::ShortBlob { sk, password, seed, tries } => {
+                out.props = vec!["C15", "C09"];
+                sig = "shortblob".into();
+                let skb = a32(&sk.0);
+                let mut r = Rng::new(*seed);
+                // one salt known to give a blob ending in 0x00 (found once, cached), then fresh ones
+                let known = zero_tail_salt(&skb, &password.0);
+                for t in 0..*tries {
+                    let saltb = if t == 0 { known.unwrap_or_else(|| r.arr32()) } else { r.arr32() };
+                    let locked = rk::lock_with_key(&skb, &crate::refmodel::scrypt::product(&password.0, &saltb), &saltb);
+                    let blob = b64::decode(&locked).unwrap();
+                    let z = blob.iter().rev().take_while(|b| **b == 0).count();
+                    if z == 0 {
+                        continue;
+                    }
+                    out.count("probe.blob_with_zero_tail_found", 1);
+                    for k in 1..=z.min(3) {
+                        let txt = b64::encode(&blob[..84 - k]);
+                        let pw = password.0.clone();
+                        let t2 = txt.clone();
+                        let g = run_guarded(move || match EncodedSk::try_from(t2.as_str()) {
+                            Ok(e) => Keyring::unlock_private_key(&e, &pw).is_ok(),
+                            Err(_) => false,
+                        });
+                        note(&format!("{}:{:?}", k, g), &mut th);
+                        match g {
+                            Guarded::Returned(false) => {}
+                            Guarded::Returned(true) => out.violations.push(viol("C15", "short_blob_accepted", format!("a locked key of {} bytes (the last {} zero bytes of the 84 missing) unlocks", 84 - k, k))),
+                            other => out.violations.push(viol("C09", "panic_unlock_private_key", format!("{:?}", other))),
+                        }
+                    }
+                }
+            }
             Kind::LockedString { sk, salt, fault } => {
                 out.props = vec!["C15", "C09"];
                 let skb = a32(&sk.0);
@@ -638,6 +674,41 @@ impl A9 {
     }
 }
 
+/// A salt under which lock(sk, password) ends in a zero byte. The search (about 256 scrypt
+/// evaluations) is done once per (sk, password) and kept in /verif/build/cache; the ShortBlob
+/// scenarios all use one fixed (sk, password) pair so that the cache hits.
+fn zero_tail_salt(sk: &[u8; 32], password: &[u8]) -> Option<[u8; 32]> {
+    let tag = crate::rng::fnv64(&[&sk[..], password].concat());
+    let path = format!("{}/build/cache/zero-tail-{:016x}.hex", crate::root(), tag);
+    if let Ok(t) = std::fs::read_to_string(&path) {
+        if let Some(v) = crate::hx::from_hex(t.trim()) {
+            if v.len() == 32 {
+                return Some(a32(&v));
+            }
+        }
+    }
+    let mut r = Rng::new(tag);
+    for _ in 0..2000 {
+        let salt = r.arr32();
+        let locked = rk::lock_with_key(sk, &crate::refmodel::scrypt::product(password, &salt), &salt);
+        if b64::decode(&locked).map(|b| b[83] == 0).unwrap_or(false) {
+            let _ = std::fs::create_dir_all(format!("{}/build/cache", crate::root()));
+            let _ = std::fs::write(&path, crate::hx::to_hex(&salt));
+            return Some(salt);
+        }
+    }
+    None
+}
+
+pub fn warm_caches() {
+    let (sk, pw) = short_blob_fixture();
+    let _ = zero_tail_salt(&sk, &pw);
+}
+
+fn short_blob_fixture() -> ([u8; 32], Vec<u8>) {
+    ([0x42u8; 32], b"short-blob-fixture".to_vec())
+}
+
 fn tok_char(t: &Tok) -> char {
     match t {
         Tok::Section => 'S',
@@ -752,6 +823,10 @@ impl Family for A9 {
             let password = Hx(crate::gen::gen_password(&mut kr));
             let k = (idx % 16) as usize;
             return Scn { kind: Kind::LockSweep { sk, password, salt, from: k * 42, to: (k + 1) * 42 } };
+        }
+        if self.locked && rng.chance(1, 6) {
+            let (fsk, fpw) = short_blob_fixture();
+            return Scn { kind: Kind::ShortBlob { sk: Hx(fsk.to_vec()), password: Hx(fpw), seed: rng.next_u64(), tries: 2 } };
         }
         let roll = if self.locked { rng.below(12) } else { 12 + rng.below(88) };
         let kind = match roll {
